@@ -283,7 +283,7 @@ class PjRpcMocker:
 
         else:
             return pjrpc.Response(
-                id=id or match.response_data['id'],
+                id=id if id is not None else match.response_data['id'],
                 result=match.response_data['result'],
                 error=match.response_data['error'],
             )
